@@ -91,3 +91,17 @@ def param_tuple(sig):
     E = inspect.Parameter.empty
     return [(p.name, space.KIND_OF[p.kind], '<empty>' if p.default is E else p.default,
              '<empty>' if p.annotation is E else p.annotation) for p in sig.parameters.values()]
+
+
+_CALLS = {}
+
+
+def calls_for(shape, extra=('zz',)):
+    """The call alphabet of a function shape: 0..P+1 positionals x every
+    subset of (parameter names + star names + extra)."""
+    names = tuple(p[0] for p in shape) + tuple(extra)
+    npos = sum(1 for p in shape if p[1] in (PO, POK))
+    key = (names, npos)
+    if key not in _CALLS:
+        _CALLS[key] = call_list(names, npos + 1)
+    return _CALLS[key]
